@@ -106,3 +106,34 @@ End Honoured.
 Print Assumptions C04_choice_is_displayed.
 Print Assumptions C04_choice_is_displayed_validated.
 Print Assumptions C04_break_never_spanned.
+
+(* ---- at the level of the keys (Proofs/EditKeys.v): the Backspace key, the Delete key and the key that completes a
+   syllable - in every layout, with every dictionary - leave a recorded choice the edit does not touch recorded,
+   moved along with its symbols (or the key changed nothing in the buffer at all) ---- *)
+From LC Require Import Gen.Editor_gen Model.Editor Model.EditorRun Proofs.EditKeys.
+
+Theorem C04_backspace_key_keeps_choice : forall D SY (dops : dict_ops D) (sops : syl_ops SY) conv (s s' : shared D SY) ev t sel,
+  kcode ev = kc_Backspace -> entering_next dops sops conv s ev = Ok (s', t) ->
+  In sel (selections (inner (com s))) -> (ie sel <= cursor (com s) - 1 \/ cursor (com s) - 1 < ib sel) ->
+  com s' = com s \/
+  In (if Nat.leb (ib sel) (cursor (com s) - 1) then sel else unshift_iv 1 sel) (selections (inner (com s'))).
+Proof. intros D SY dops sops conv s s' ev t sel. exact (backspace_key_keeps_choice dops sops conv s ev s' t sel). Qed.
+Print Assumptions C04_backspace_key_keeps_choice.
+
+Theorem C04_delete_key_keeps_choice : forall D SY (dops : dict_ops D) (sops : syl_ops SY) conv (s s' : shared D SY) ev t sel,
+  kcode ev = kc_Del -> entering_next dops sops conv s ev = Ok (s', t) ->
+  In sel (selections (inner (com s))) -> (ie sel <= cursor (com s) \/ cursor (com s) < ib sel) ->
+  com s' = com s \/
+  In (if Nat.leb (ib sel) (cursor (com s)) then sel else unshift_iv 1 sel) (selections (inner (com s'))).
+Proof. intros D SY dops sops conv s s' ev t sel. exact (delete_key_keeps_choice dops sops conv s ev s' t sel). Qed.
+Print Assumptions C04_delete_key_keeps_choice.
+
+Theorem C04_typing_a_syllable_keeps_choice : forall D SY (dops : dict_ops D) (sops : syl_ops SY) (s s' : shared D SY) ev t sy sel,
+  N.eqb (kcode ev) kc_Backspace = false -> (N.eqb (kcode ev) kc_Unknown && mcaps ev) = false -> N.eqb (kcode ev) kc_Esc = false ->
+  (if o_fuzzy (opts s) then so_fuzzy_key_press sops (syl s) ev else so_key_press sops (syl s) ev) = (sy, KCommit) ->
+  entering_syllable_next dops sops s ev = Ok (s', t) ->
+  In sel (selections (inner (com s))) -> (ie sel <= cursor (com s) \/ cursor (com s) <= ib sel) ->
+  com s' = com s \/
+  In (if Nat.leb (cursor (com s)) (ib sel) then shift_iv 1 sel else sel) (selections (inner (com s'))).
+Proof. intros D SY dops sops s s' ev t sy sel. exact (syllable_commit_key_keeps_choice dops sops s ev s' t sy sel). Qed.
+Print Assumptions C04_typing_a_syllable_keeps_choice.
